@@ -55,6 +55,9 @@ for _p in sorted(glob.glob(os.path.join(os.path.dirname(__file__), "conf_*.py"))
     for _pid in getattr(_m, "CLIENT_ALSO", []):
         if _pid in PROPS and "client" not in PROPS[_pid]["suites"]:
             PROPS[_pid]["suites"] = PROPS[_pid]["suites"] + ["client"]
+            _co = getattr(_m, "CLIENT_ORACLES", {}).get(_pid)
+            if _co is not None:
+                PROPS[_pid].setdefault("impl_oracle", {})["client"] = _co
 
 # further files of coq/Props whose theorems belong to a property: the client halves written by the
 # client-side proofs, and the blocking-structure model for the termination / deadlock clauses
